@@ -360,7 +360,18 @@ def build_traj(desc: dict, fdefs=(), skip_fieldsets=()):
         for fname, f, v in zip(field_names(fd), fd['fields'], vals):
             if v.get('unset') == 'never':
                 continue
-            setattr(t, fname, to_aeic_value(f, raw_field(f, v, desc['n']), reverse_modes=bool(desc['seed'] % 2)))
+            val = to_aeic_value(f, raw_field(f, v, desc['n']), reverse_modes=bool(desc['seed'] % 2))
+            cur = getattr(t, fname, None)
+            if 'S' in f['dims'] and val is not None and desc['seed'] % 3 == 0 and cur is not None and hasattr(cur, 'keys') \
+                    and len(cur) == 0:
+                # the other documented way of setting a species-indexed field: filling the (empty) mapping the new
+                # trajectory starts with, species by species
+                # (values already of the field's own type: an in-place fill passes no conversion hook)
+                val = to_aeic_value(f, expected_field(f, v, desc['n']), reverse_modes=bool(desc['seed'] % 2))
+                for sp in val.keys():
+                    cur[sp] = val[sp]
+            else:
+                setattr(t, fname, val)
     return t
 
 
